@@ -6,7 +6,7 @@
     correspondence check, and is itself compared with the crate on every run. *)
 From Coq Require Import ZArith.
 From Bignums Require Import BigZ.
-From SplVerif Require Import Lib.Base Lib.Sha256.
+From SplVerif Require Export Lib.Base Lib.Sha256 Lib.PdaSpec.
 
 Definition P25519 : bigZ := 57896044618658097711785492504343953926634992332820282019728792003956564819949%bigZ.
 Definition D25519 : bigZ := 37095705934669439343138083508754565189542113879843219016388785533085940283555%bigZ.
@@ -33,27 +33,10 @@ Definition bytes_are_curve_point (h : list byte) : bool :=
   on_curve_y (BigZ.of_Z (Z.of_N (N.modulo (le_dec h) TWO255))).
 
 (** "ProgramDerivedAddress" *)
-Definition PDA_MARKER : list byte :=
-  [x50;x72;x6f;x67;x72;x61;x6d;x44;x65;x72;x69;x76;x65;x64;x41;x64;x64;x72;x65;x73;x73].
-
-Inductive cpa := CpaOk (k : list byte) | CpaInvalidSeeds | CpaTooLong.
-Definition create_program_address (seeds : list (list byte)) (program : list byte) : cpa :=
-  if Nat.ltb 16 (length seeds) then CpaTooLong
-  else if existsb (fun s => Nat.ltb 32 (length s)) seeds then CpaTooLong
-  else let h := sha256 (concat seeds ++ program ++ PDA_MARKER) in
-       if bytes_are_curve_point h then CpaInvalidSeeds else CpaOk h.
-
-Fixpoint find_loop (n : nat) (bump : N) (seeds : list (list byte)) (program : list byte) : option (list byte * N) :=
-  match n with
-  | O => None
-  | S n =>
-      match create_program_address (seeds ++ [[b8 bump]]) program with
-      | CpaOk k => Some (k, bump)
-      | CpaInvalidSeeds => find_loop n (bump - 1) seeds program
-      | CpaTooLong => None
-      end
-  end.
+Definition create_program_address := cpa_with bytes_are_curve_point.
+Definition find_loop := find_loop_with bytes_are_curve_point.
 Definition try_find_program_address (seeds : list (list byte)) (program : list byte) : option (list byte * N) :=
-  find_loop 255 255%N seeds program.
+  try_find_with bytes_are_curve_point seeds program.
 Definition find_pda (seeds : list (list byte)) (program : list byte) : option (list byte) :=
   option_map fst (try_find_program_address seeds program).
+
